@@ -1,8 +1,8 @@
 HOOKS = {
     "guard": "cargo feature verif-hooks",
-    "enable": "harness depends on vfs with features [async-vfs, embedded-fs] (+ verif-hooks once the hook commits exist)",
+    "enable": "cargo feature verif-hooks of the vfs crate (the harness depends on vfs with features [async-vfs, embedded-fs, verif-hooks]); with the feature off src/verif_hooks.rs is not compiled and every yield point disappears (cfg(feature = \"verif-hooks\")); with it on, yield_point is a no-op unless a scheduler was installed by vfs::verif_hooks::install",
     "baseline_off_cmd": "cd /repo && cargo test --workspace --no-fail-fast --offline",
-    "source_commits": [],
+    "source_commits": ["a3036b8", "37d59cc"],
     "add_only": True,
 }
 
@@ -105,6 +105,18 @@ TEXTS = {
         "design_ref": "DESIGN.md §6 C15",
         "note": "trusted: Lean kernel + audited axioms (decide +kernel in examples); the model of poll_next (read from src/async_vfs/path.rs, re-checked against the source by an independent pass); executors and async-std types; the async ports have no Lean model",
         "technique": "Lean 4 proof (stuttering simulation, schedule independence) + differential test sync vs async under injected Pending",
+    },
+    "C16": {
+        "level": "Lean 4 theorems over an interleaving model of MemoryFS (threads x programs x lock regions as atomic steps; any number of threads, any programs of trait calls, any schedule, complete or not): the tree is well-formed after every step; every concurrent run equals — same map, same handle slots, same exact results — the sequential run of the same calls in the order of their last lock regions, which respects each thread's program order (linearizability by simulation); a scheduled thread with work left always progresses; no region can panic. The historical two-lock create_dir is refuted by a kernel-checked schedule. Tied to the code by the sched stream: the real MemoryFS under a cooperative scheduler (verif-hooks yield points before every lock acquisition), all schedules of curated and generated 2-3 thread programs enumerated by re-execution, each outcome compared with the sequential outcomes of the real code, and sampled schedules replayed on the Lean model. Whole write/append sessions taken as one call are NOT atomic: known findings S1, S2 (negative theorems).",
+        "design_ref": "DESIGN.md §6 C16",
+        "note": "trusted: Lean kernel + audited axioms (decide +kernel in the negative witnesses); placement of the yield points (one before each lock acquisition, MANIFEST.hooks); std RwLock; the model's regions (read from memory.rs, compared by the stream: region label sequences are part of the correspondence)",
+        "technique": "Lean 4 proof (simulation of an interleaving model by a sequential machine) + exhaustive schedule enumeration of the real code under a cooperative scheduler with a sequential-outcome oracle",
+    },
+    "C17": {
+        "level": "Lean 4 theorem: for any number of threads calling create_dir_all on arbitrary paths of one MemoryFS (no files in the way, no removals), under every schedule at lock granularity no call fails, the map only grows by directories, and when all have finished every requested path and each prefix is a directory; also for sequences of such calls per thread. PARTIAL for the other backends: AltrootFS and OverlayFS over MemoryFS are decided by exhaustive schedule enumeration of the real code (sched stream), PhysicalFS by randomised stress with free-running threads; the parametric lemma createDir_regions_monotone covers any backend whose create_dir answers Ok or DirectoryExists on a growing directory set.",
+        "design_ref": "DESIGN.md §6 C17",
+        "note": "trusted: as C16; host mkdir atomicity for PhysicalFS",
+        "technique": "Lean 4 proof (invariant over all schedules of an interleaving model) + exhaustive schedule enumeration under a cooperative scheduler; randomised stress for PhysicalFS",
     },
     "C09": {
         "level": "Lean 4 theorems for an overlay of two memory layers and every canonical path: the overlay's exists, metadata and open_file compute exactly the first-layer-wins union view (markers subtracted); read_dir lists exactly the children of the view, duplicate-free, never '.whiteout'; the three named consequences — creating over a lower-only entry fails as already-existing with the view of EVERY path unchanged, removing a directory with lower-layer children fails as non-empty without side effect, appending continues the lower layer's bytes (copy-up) with the lower layer untouched. PARTIAL: the full operation-contract refinement relative to the union (all of C01's operations, n layers, physical and nested layers) is decided by the tree stream, which compares every step of every overlay configuration with a reference tree initialised with the union of the generated layers.",
